@@ -91,7 +91,7 @@ def run(ctx):
         print("DRIFT property=C17 %s" % n)
     res = ctx.validate("WriteQuotaTrace", "WriteQuotaTrace.cfg", tpath)
     judge(ctx, res, tpath, "gated replay")
-    if res["accepted"] and (s["skipped"] or counts.get("infeasible") or counts.get("blocked")):
+    if res["accepted"] and (s["skipped"] or counts.get("infeasible") or counts.get("blocked") or counts.get("unsettled")):
         raise Inconclusive("gated replay could not follow the model (%s, %d skipped) but the monitor saw no violation: %s"
                            % (counts, s["skipped"], s["notes"]))
 
